@@ -4,6 +4,7 @@ EXTENDS Signals
 GridsSmall  == {<<0, 2, 4>>, <<0, 1, 4>>}
 GridsSim    == {<<0, 2, 4>>, <<1, 2, 3>>, <<0, 1, 4>>, <<0, 3, 4>>, <<0, 1, 2, 4>>, <<-6, -2, 2, 6>>, <<5>>, <<3, 4>>, <<2000000, 2000002, 2000004>>,
                 <<-4, -2, 0, 2, 4, 6>>, <<0, 1, 2, 3, 4>>}
+GridsAdd    == {<<0, 2, 4>>, <<1, 2, 3>>, <<0, 1, 4>>, <<2, 4, 6>>}
 ValsSmall   == {<<16, 32, -16>>, <<48>>}
 ValsSim     == {<<16, 32, -16>>, <<48>>, <<64, 0, 32, 16, 80, -48, 96>>, <<>>, <<0, 0, 0, 0>>, <<32, 64>>}
 FnsSmall    == {"lin", "step"}
